@@ -43,8 +43,8 @@ fn factory_for(dir: &Path, sources: Vec<MemReader>) -> PipelineFactory {
 fn observe_tile(rt: &tokio::runtime::Runtime, reader: &PipelineReader, declared: &str) -> (Value, Value) {
 	let dec = |b: &[u8]| -> Value {
 		match indep::decode(declared, b).and_then(|raw| decode_tile(&raw)) {
-			Ok(t) => json!({"exists":1,"ok":1,"tile":t}),
-			Err(e) => json!({"exists":1,"ok":0,"tile":[],"err":e}),
+			Ok(t) => json!({"exists":1,"ok":1,"tile":t,"h":crate::mem::h31(b)}),
+			Err(e) => json!({"exists":1,"ok":0,"tile":[],"err":e,"h":crate::mem::h31(b)}),
 		}
 	};
 	let c = TileCoord3::new(X, Y, Z).unwrap();
